@@ -873,10 +873,15 @@ class WaveSpectrum(DatasetWrapper):
         for dim in self.dims_space_time:
             coords[dim] = self.dataset[dim].values
 
+        data = inverse_intrinsic_dispersion_relation(
+            self.radian_frequency[index].values, self.depth.values
+        )
+        if len(self.dims_space_time) == 0:
+            # the solver always returns at least a 1d array
+            data = data[0]
+
         return xarray.DataArray(
-            data=inverse_intrinsic_dispersion_relation(
-                self.radian_frequency[index].values, self.depth.values
-            ),
+            data=data,
             dims=self.dims_space_time,
             coords=coords,
         )
